@@ -34,11 +34,12 @@ type vstore struct {
 	stored        int           // entries created
 	notified      int
 	notifKeys     map[string]int
+	wasStored     map[string]bool // key/value pairs a completed Set or load has stored
 	gets, gethits uint64
 }
 
 func newVStore(tr *vtrace, size int64, doorkeeper bool, start int64) *vstore {
-	v := &vstore{tr: tr, now: start, shadow: map[int]int{}, shadowExp: map[int]int64{}, gen: map[int]int{}, notifKeys: map[string]int{}}
+	v := &vstore{tr: tr, now: start, shadow: map[int]int{}, shadowExp: map[int]int64{}, gen: map[int]int{}, notifKeys: map[string]int{}, wasStored: map[string]bool{}}
 	vsetNow(start)
 	vsetRand(0)
 	v.s = vnewStore(&StoreOptions[int, int]{MaxSize: size, Doorkeeper: doorkeeper, EntryPool: vpoolMode,
@@ -124,11 +125,12 @@ func (v *vstore) set(key, val int, cost int64, ttl int64) bool {
 	}
 	if ok {
 		v.shadow[key] = val
+		v.wasStored[fmt.Sprint(key, "/", val)] = true
 		// the deadline that governs this value: this call's time + TTL; without TTL the earlier
 		// deadline is kept only if that earlier value is still alive
 		if ttl != 0 {
 			d := v.now + ttl
-			if d < v.now {
+			if ttl > 0 && d < v.now {
 				d = int64(^uint64(0) >> 1)
 			}
 			v.shadowExp[key] = d
@@ -144,7 +146,12 @@ func (v *vstore) set(key, val int, cost int64, ttl int64) bool {
 		}
 		// immediately readable at the same instant
 		_, idx := v.s.index(key)
-		if se, hit := v.s.getFromShard(key, h, v.s.shards[idx]); !hit || se.value != val {
+		if se, hit := v.s.getFromShard(key, h, v.s.shards[idx]); ttl < 0 {
+			// a lifetime that is over on arrival: the write is still the latest one - a read misses, it never returns what was there before
+			if hit && se.value != val {
+				v.tr.viol(fmt.Sprintf("C01: Set(%d,%d,ttl %d) returned true but a read at the same instant returns the overwritten value %d", key, val, ttl, se.value))
+			}
+		} else if !hit || se.value != val {
 			v.tr.viol(fmt.Sprintf("C06: Set(%d,%d,ttl %d) returned true but the value is not readable at once (hit %v)", key, val, ttl, hit))
 		}
 	} else {
@@ -203,9 +210,10 @@ func (v *vstore) lget(key int, lerr bool, lval int, lcost, lttl int64) {
 		after := v.resident(key)
 		if after != nil && after.value == lval {
 			v.shadow[key] = lval
+			v.wasStored[fmt.Sprint(key, "/", lval)] = true
 			if lttl != 0 {
 				d := v.now + lttl
-				if d < v.now {
+				if lttl > 0 && d < v.now {
 					d = int64(^uint64(0) >> 1)
 				}
 				v.shadowExp[key] = d
@@ -224,13 +232,6 @@ func (v *vstore) lget(key int, lerr bool, lval int, lcost, lttl int64) {
 				v.tr.viol(fmt.Sprintf("C06: loader value for key %d with cost %d above MaxSize %d was admitted", key, lcost, v.s.cap))
 			}
 		}
-	}
-}
-
-func (v *vstore) noteDepartures() {
-	for i := 0; i+2 < len(v.notes); i += 3 {
-		k := v.notes[i] + "/" + v.notes[i+1]
-		v.notifKeys[k]++
 	}
 }
 
@@ -313,6 +314,16 @@ func (v *vstore) checkNotes(op string) {
 		var k, val int
 		fmt.Sscan(v.notes[i], &k)
 		fmt.Sscan(v.notes[i+1], &val)
+		// exactly one: values are unique per stored entry in these histories, so a key/value pair is reported at most once,
+		// and only a pair that some completed Set or load has stored
+		kv := fmt.Sprint(k, "/", val)
+		v.notifKeys[kv]++
+		if v.notifKeys[kv] > 1 {
+			v.tr.viol(fmt.Sprintf("C05: %s: key %d value %d was notified a second time (reason %s): two notifications for one departed entry", op, k, val, v.notes[i+2]))
+		}
+		if !v.wasStored[kv] {
+			v.tr.viol(fmt.Sprintf("C05: %s: notification (reason %s) for key %d carries value %d, which no completed Set or load has stored under that key", op, v.notes[i+2], k, val))
+		}
 		if e := v.resident(k); e != nil && e.value == val && v.gen[k] <= 1 {
 			v.tr.viol(fmt.Sprintf("C05: %s notified key %d value %d (reason %s) while that entry is still resident", op, k, val, v.notes[i+2]))
 		}
@@ -527,6 +538,18 @@ func vstoreCase(tr *vtrace, r *vrng, doorkeeper, loading, focus bool) {
 		}
 	}
 	ttl := func() int64 {
+		if r.chance(4) {
+			// a lifetime that is over on arrival; the deadline stays after the clock's origin (a deadline <= 0 is not a
+			// deadline for the code: outside what C03 quantifies over)
+			m := int64(r.next() % (1 << uint(1+r.intn(40))))
+			if m > v.now-2 {
+				m = v.now - 2
+			}
+			if m < 0 {
+				m = 0
+			}
+			return -1 - m
+		}
 		switch r.intn(10) {
 		case 0, 1, 2, 3:
 			return 0
